@@ -2,12 +2,473 @@
 C01 (hand-written code) — termination, iteration bounds, in-range indices / slices and absence of arithmetic
 traps for the models of Model/HandText.lean ⇄ read-fonts/src/tables/name.rs / post.rs / cmap.rs (NameString / CharIter / MacRoman, Post::glyph_name / PString, cmap formats 0/2/6/10/13/14 lookups and iterators).
 Tied to the real functions by harness group `text.model` (`ht.*` driver commands).
+
+All theorems are about ALL inputs: arbitrary (unsorted, overlapping, truncated) tables.  Hypotheses only say that a
+field holds what its width allows (`u16` / `Uint24` / `u8` / bytes below 256) or that a slice is no longer than
+`usize::MAX / 2` (every Rust slice is at most `isize::MAX` bytes).
 -/
 import FontVerif.Model.HandText
 import FontVerif.Lemmas.ReadIter
+import FontVerif.Lemmas.HandText
 set_option linter.unusedVariables false
 set_option linter.unusedSimpArgs false
 namespace FontVerif.C01HandText
 open FontVerif FontVerif.ReadIter FontVerif.HandRead FontVerif.HandText
+
+/-! ## cmap: `Cmap4::map_codepoint`, `Cmap12::map_codepoint`, `Cmap::map_codepoint` -/
+
+/-- the `while lo < hi` loop of `map_codepoint` makes at most `fuel` trips whenever `hi - lo < 2 ^ fuel`: the interval
+halves every trip, for every table content -/
+theorem seek_terminates (sA eA : Nat → Option Nat) (c fuel lo hi : Nat) (h : hi - lo < 2 ^ fuel) :
+    seek sA eA c fuel lo hi ≠ .fuel := seek_total sA eA c fuel lo hi h
+
+/-- the fuel the models use is logarithmic: at most 15 trips for a format 4 subtable (`segCountX2` is a `u16`), at
+most 32 for a format 12 subtable with fewer than 2^32 groups -/
+theorem seekFuel_le (n k : Nat) (h : n < 2 ^ k) (hk : 1 ≤ k) : seekFuel n ≤ k := by
+  unfold seekFuel
+  by_cases hn : n = 0
+  · subst hn; simp [Nat.log2]; omega
+  · have := (Nat.log2_lt hn).mpr h; omega
+
+/-- a segment the search returns is inside `lo .. hi`, both `get`s succeeded there and the code point lies in
+`start ..= end` — so `codepoint - start_code` in `lookup_glyph_id` cannot underflow -/
+theorem seek_found_in_range (sA eA : Nat → Option Nat) (c fuel lo hi i sc : Nat)
+    (h : seek sA eA c fuel lo hi = .found i sc) :
+    lo ≤ i ∧ i < hi ∧ sA i = some sc ∧ sc ≤ c ∧ ∃ ec, eA i = some ec ∧ c ≤ ec :=
+  seek_found sA eA c fuel lo hi i sc h
+
+/-- `(lo + hi) / 2` never overflows for slices of at most `usize::MAX / 2` elements, and no `.get(i)?` fails when
+both arrays have `hi` elements (as the generated `Cmap4::read` / `Cmap12::read` guarantee) -/
+theorem seek_no_trap_no_getFail (sA eA : Nat → Option Nat) (c fuel hi : Nat) (hm : 2 * hi ≤ MAXU) :
+    seek sA eA c fuel 0 hi ≠ .trap ∧
+    ((∀ i, i < hi → (sA i).isSome ∧ (eA i).isSome) → seek sA eA c fuel 0 hi ≠ .getFail) :=
+  ⟨seek_no_trap sA eA c fuel 0 hi (by omega) hm, seek_no_getFail sA eA c fuel 0 hi⟩
+
+/-- `Cmap4::map_codepoint` terminates (≤ `log2(segCount) + 1` trips) and never traps — for ANY arrays: the `u16`
+subtraction of `lookup_glyph_id` is only reached with `start_code ≤ codepoint` -/
+theorem map4_safe (t : Cmap4) (x2 cp : Nat) (hx : x2 ≤ MAXU) :
+    map4 t x2 cp ≠ .fuel ∧ map4 t x2 cp ≠ .trap := by
+  unfold map4
+  split
+  · simp
+  · have hf := seek_total (fun i => t.startCode[i]?) (fun i => t.endCode[i]?) cp _ 0 (x2 / 2) (seekFuel_ok _)
+    have ht := seek_no_trap (fun i => t.startCode[i]?) (fun i => t.endCode[i]?) cp (seekFuel (x2 / 2)) 0 (x2 / 2)
+      (by omega) (by omega)
+    split
+    · rename_i i sc hs
+      have := seek_found _ _ _ _ _ _ _ _ hs
+      have h4 := lookup4_no_trap t cp i sc (by omega)
+      cases hl : t.lookupGlyphId cp i sc <;> simp_all [MapRes.ofLook]
+    · simp
+    · simp
+    · rename_i hs; exact absurd hs ht
+    · rename_i hs; exact absurd hs hf
+
+
+/-- a glyph id `Cmap4::map_codepoint` returns is a `u16` -/
+theorem map4_gid_u16 (t : Cmap4) (x2 cp g : Nat) (h : map4 t x2 cp = .gid g) : g < 65536 := by
+  unfold map4 at h
+  split at h
+  · simp at h
+  · split at h
+    · rename_i i sc _
+      unfold Cmap4.lookupGlyphId at h
+      have hm : ∀ x dl, addDeltaU16 x dl < 65536 := by intro x dl; unfold addDeltaU16; omega
+      split at h
+      · simp [MapRes.ofLook] at h
+      · split at h
+        · simp [MapRes.ofLook] at h
+        · split at h
+          · simp [MapRes.ofLook] at h; rw [← h]; exact hm _ _
+          · split at h
+            · simp [MapRes.ofLook] at h
+            · simp only [] at h
+              split at h
+              · simp [MapRes.ofLook] at h
+              · split at h
+                · simp [MapRes.ofLook] at h
+                · simp [MapRes.ofLook] at h; rw [← h]; exact hm _ _
+    all_goals simp at h
+
+/-- `Cmap12::map_codepoint` terminates (≤ `log2(groups) + 1` trips), never traps, and answers a `u32` -/
+theorem map12_safe (gs : List Group) (cp : Nat) (hl : 2 * gs.length ≤ MAXU) :
+    map12 gs cp ≠ .fuel ∧ map12 gs cp ≠ .trap ∧ (∀ g, map12 gs cp = .gid g → g < 4294967296) := by
+  unfold map12
+  have hf := seek_total (fun i => gs[i]?.map (·.startChar)) (fun i => gs[i]?.map (·.endChar)) cp _ 0 gs.length
+    (seekFuel_ok _)
+  have ht := seek_no_trap (fun i => gs[i]?.map (·.startChar)) (fun i => gs[i]?.map (·.endChar)) cp
+    (seekFuel gs.length) 0 gs.length (by omega) hl
+  split
+  · split
+    · refine ⟨by simp, by simp, ?_⟩
+      intro g hg; simp at hg; rw [← hg]; unfold lookup12; omega
+    · simp
+  · simp
+  · simp
+  · rename_i hs; exact absurd hs ht
+  · rename_i hs; exact absurd hs hf
+
+/-- `Cmap::map_codepoint`: the record loop never traps / hangs, whatever the subtables hold -/
+theorem cmapMap_safe (subs : List Sub) (cp : Nat)
+    (h : ∀ s ∈ subs, match s with | .f4 _ x => x < 65536 | .f12 gs => gs.length < 4294967296 | _ => True) :
+    cmapMap subs cp ≠ .fuel ∧ cmapMap subs cp ≠ .trap := by
+  have hM : MAXU = 18446744073709551615 := rfl
+  induction subs with
+  | nil => simp [cmapMap]
+  | cons s rest ih =>
+    have ih := ih (fun x hx => h x (by simp [hx]))
+    have hs := h s (by simp)
+    unfold cmapMap
+    have key : s.map cp ≠ .fuel ∧ s.map cp ≠ .trap := by
+      cases s with
+      | f4 t x => simp only [] at hs; exact map4_safe t x cp (by omega)
+      | f12 gs => simp only [] at hs; exact ⟨(map12_safe gs cp (by omega)).1, (map12_safe gs cp (by omega)).2.1⟩
+      | other => simp [Sub.map]
+      | err => simp [Sub.map]
+    cases hr : s.map cp with
+    | none => simpa using ih
+    | gid g => simp
+    | trap => exact absurd hr key.2
+    | fuel => exact absurd hr key.1
+
+/-! ## cmap format 14 -/
+
+/-- core's `binary_search_by` (as transcribed in Model/Layout.lean) answers `Ok(i)` only with `i < len` and an
+element that compares `Equal` — for EVERY comparison function, sorted data or not.  Hence in
+`Cmap14::map_variant` the `.and_then(|idx| selector_records.get(idx))` and `mapping.get(ix)?` after a
+successful search never fail, and in `MacRomanMapping::encode` `MAC_ROMAN_ENCODE[idx]` is in range. -/
+theorem binary_search_ok_in_range (n : Nat) (cmpAt : Nat → Ordering) (i : Nat)
+    (h : Layout.binarySearchBy n cmpAt = .ok i) : i < n ∧ cmpAt i = .eq := bs_ok_lt h
+
+/-- `start + range.additional_count() as u32 (+ 1)` of `map_variant` / `DefaultUvsIter` cannot overflow `u32`:
+`start` is a `Uint24`, the count a `u8` -/
+theorem uvs_range_add_no_overflow (start cnt : Nat) (h1 : start < 16777216) (h2 : cnt < 256) :
+    start + cnt < 4294967296 ∧ uvsEnd (start, cnt) = some (start + cnt + 1) := by
+  unfold uvsEnd; simp; omega
+
+/-- `Σ (additional_count + 1) ≤ 256 · #ranges` for `u8` counts -/
+theorem duTotal_le (ranges : List (Nat × Nat)) (h : ∀ r ∈ ranges, r.2 < 256) :
+    duTotal ranges ≤ 256 * ranges.length := by
+  induction ranges with
+  | nil => simp [duTotal]
+  | cons r rs ih =>
+    have h1 := h r (by simp)
+    have h2 := ih (fun x hx => h x (by simp [hx]))
+    simp only [duTotal, List.map_cons, List.sum_cons, List.length_cons] at h2 ⊢
+    omega
+
+
+/-- `DefaultUvsIter`: at most `Σ (additional_count + 1)` code points, then `None`; no trap on decoded ranges -/
+theorem du_iter_bounded (ranges : List (Nat × Nat)) :
+    ∃ evs, duTrace ranges = some evs ∧ (items evs).length ≤ duTotal ranges ∧
+      (RestOk ranges → trapped evs = false) := by
+  unfold duTrace
+  cases hn : duNew ranges with
+  | none =>
+    refine ⟨[.trap], rfl, by simp [items], ?_⟩
+    intro h; obtain ⟨d, h1, _⟩ := duNew_ok ranges h; rw [hn] at h1; simp at h1
+  | some d =>
+    simp only []
+    have hr := duNew_rem ranges d hn
+    obtain ⟨evs, he, hlen⟩ := run_complete duNext duRem (fun _ => True) (fun _ _ => trivial)
+      (fun s _ hd => (duNext_rem s).2 hd) (duTotal ranges + 1) d trivial (by omega)
+    refine ⟨evs, he, ?_, ?_⟩
+    · have := items_length_le evs; omega
+    · intro h
+      obtain ⟨d', h1, hok⟩ := duNew_ok ranges h
+      rw [hn] at h1; simp at h1; subst h1
+      exact not_trapped duNext (fun s => RestOk s.rest) (fun s hi => (duNext_ok s hi).2)
+        (fun s hi => (duNext_ok s hi).1) _ d evs hok he
+
+
+/-- `Cmap14Iter`: terminates within `Σ (default code points + mappings + 1)` trips, yields at most
+`Σ (default code points + mappings)` items, and never traps on decoded records -/
+theorem cmap14_iter_bounded (t : List Cmap.VarSel) :
+    ∃ evs, c14Trace t = some evs ∧ evs.length ≤ (t.map c14Weight).sum ∧
+      (items evs).length ≤ (t.map c14Items).sum ∧ (C14Wf t → trapped evs = false) := by
+  unfold c14Trace
+  cases hl : c14Load t 0 with
+  | none =>
+    refine ⟨[.trap], rfl, ?_, by simp [items], ?_⟩
+    · have : t ≠ [] := by intro h; subst h; simp [c14Load] at hl
+      simpa using c14Weight_pos t this
+    · intro hw; obtain ⟨s', h1, _⟩ := c14Load_ok t hw 0; rw [hl] at h1; simp at h1
+  | some s0 =>
+    simp only []
+    have hm := c14Load_mu t 0 s0 hl
+    simp only [List.drop_zero] at hm
+    obtain ⟨evs, he, hlen⟩ := run_complete (c14Step t) (c14Mu t) (fun _ => True) (fun _ _ => trivial)
+      (fun s _ hd => (c14Step_measures t s).1 hd) (c14Fuel t) s0 trivial (by unfold c14Fuel; omega)
+    refine ⟨evs, he, by omega, ?_, ?_⟩
+    · have := yields_le (c14Step t) (c14Nu t) (fun _ => True) (fun _ _ => trivial)
+        (fun s a _ h => (c14Step_measures t s).2.1 a h) (fun s _ h => (c14Step_measures t s).2.2 h)
+        (c14Fuel t) s0 evs trivial he
+      omega
+    · intro hw
+      obtain ⟨s', h1, hinv⟩ := c14Load_ok t hw 0
+      rw [hl] at h1; simp at h1; subst h1
+      exact not_trapped (c14Step t) C14Inv (fun s hi => (c14Step_ok t hw s hi).2)
+        (fun s hi => (c14Step_ok t hw s hi).1) (c14Fuel t) s0 evs hinv he
+
+
+/-- in terms of the table size: at most `256 · #ranges + #mappings` items per selector record -/
+theorem c14Items_le (r : Cmap.VarSel)
+    (h : ∀ ranges, r.defaults = some ranges → ∀ x ∈ ranges, x.2 < 256) :
+    c14Items r ≤ 256 * (match r.defaults with | some rs => rs.length | none => 0) +
+      (match r.nonDefaults with | some ms => ms.length | none => 0) := by
+  unfold c14Items
+  cases hn : r.nonDefaults <;> cases hd : r.defaults with
+  | none => simp
+  | some rs => have := duTotal_le rs (h rs hd); simp only []; omega
+
+/-- `Cmap14::closure_glyphs` adds at most one glyph per non-default mapping -/
+theorem closure14_bounded (t : List Cmap.VarSel) (has : Nat → Bool) :
+    (closure14 t has).length ≤ (t.map (fun r => match r.nonDefaults with | some ms => ms.length | none => 0)).sum := by
+  induction t with
+  | nil => simp [closure14]
+  | cons r rs ih =>
+    simp only [closure14, List.flatMap_cons, List.length_append, List.map_cons, List.sum_cons] at ih ⊢
+    cases hn : r.nonDefaults with
+    | none => simp only []; split <;> simpa using ih
+    | some ms =>
+      simp only []
+      have : (List.map (fun x => x.snd) (List.filter (fun m => has m.fst) ms)).length ≤ ms.length := by
+        simp only [List.length_map]; exact List.length_filter_le _ _
+      split
+      · omega
+      · simp only [List.length_nil]; omega
+
+/-! ## name: Mac Roman tables, `CharIter`, storage slices -/
+
+/-- `MacRomanMapping::decode`: for every byte the table index `raw - 128` is in range and `char::from_u32(..).unwrap()`
+succeeds (no table entry is a surrogate); the result is the C18 model's -/
+theorem macDecode_total : ∀ b, b < 256 →
+    macDecodeT b = some (NameStr.macDecode b) ∧ NameStr.isChar (NameStr.macDecode b) = true :=
+  macDecodeT_total
+
+/-- `MacRomanMapping::encode`: `MAC_ROMAN_ENCODE[idx]` never panics, the result is a byte, and decoding it gives the
+char back -/
+theorem macEncodeT_spec (c : Nat) :
+    macEncodeT c ≠ none ∧ (∀ b, macEncodeT c = some (some b) → b < 256 ∧ macDecodeT b = some c) := by
+  unfold macEncodeT
+  split
+  · simp
+  · split
+    · rename_i h; simp [macDecodeT, h]; omega
+    · split
+      · simp
+      · rename_i idx hr
+        have hlen : NameStr.macEncodeTable.length = 128 := by decide +kernel
+        have hb := bs_ok_lt hr
+        rw [hlen] at hb
+        have hget : NameStr.macEncodeTable[idx]? = some (NameStr.macEncodeTable.getD idx (0, 0)) := by
+          rw [List.getD_eq_getElem?_getD, List.getElem?_eq_getElem (by omega)]; simp
+        rw [hget]
+        simp only []
+        refine ⟨by simp, ?_⟩
+        intro b hbb
+        have hbb : (NameStr.macEncodeTable.getD idx (0, 0)).2 = b := by
+          exact Option.some.inj (Option.some.inj hbb)
+        have hc := natCmp_eq hb.2
+        have := macEncode_table_roundtrip idx hb.1
+        rw [hbb, hc] at this
+        refine ⟨?_, this⟩
+        have hall : ∀ i, i < 128 → (NameStr.macEncodeTable.getD i (0, 0)).2 < 256 := by decide +kernel
+        have := hall idx hb.1
+        rw [hbb] at this; exact this
+
+
+/-- `CharIter`: terminates within `len` calls; yields at most `len / 2` chars (UTF-16BE), `len` (Mac Roman), none
+(unknown encoding); every item is a Unicode scalar value; no trap (`pos + 2`, `try_into().unwrap()`, the surrogate
+arithmetic, the Mac Roman table index) for byte data of at most `usize::MAX - 2` bytes -/
+theorem charIter_bounded (enc : NameStr.Encoding) (d : List Nat) :
+    ∃ evs, charTrace enc d = some evs ∧ evs.length ≤ d.length ∧
+      (items evs).length ≤ charNu enc d.length 0 ∧
+      (∀ c ∈ items evs, NameStr.isChar c = true) ∧
+      (d.length + 2 ≤ MAXU → (∀ b ∈ d, b < 256) → trapped evs = false) := by
+  unfold charTrace
+  obtain ⟨evs, he, hlen⟩ := run_complete (charStep enc d) (fun pos => d.length - pos) (fun pos => pos ≤ d.length)
+    (fun s hs => (charStep_spec enc d s hs).1)
+    (fun s hs hd => by have := charStep_spec enc d s hs; have := this.2.1 hd; omega)
+    (d.length + 1) 0 (by omega) (by omega)
+  refine ⟨evs, he, by omega, ?_, ?_, ?_⟩
+  · exact yields_le (charStep enc d) (charNu enc d.length) (fun pos => pos ≤ d.length)
+      (fun s hs => (charStep_spec enc d s hs).1)
+      (fun s a hs h => ((charStep_spec enc d s hs).2.2.2 a h).2)
+      (fun s hs h => absurd h (charStep_spec enc d s hs).2.2.1)
+      (d.length + 1) 0 evs (by omega) he
+  · exact items_all (charStep enc d) (fun pos => pos ≤ d.length) (fun c => NameStr.isChar c = true)
+      (fun s hs => (charStep_spec enc d s hs).1)
+      (fun s a hs h => ((charStep_spec enc d s hs).2.2.2 a h).1)
+      (d.length + 1) 0 evs (by omega) he
+  · intro hm hb
+    exact not_trapped (charStep enc d) (fun pos => pos ≤ d.length)
+      (fun s hs => (charStep_spec enc d s hs).1)
+      (fun s hs => charStep_no_trap enc d s hs hm hb)
+      (d.length + 1) 0 evs (by omega) he
+
+
+
+/-- `NameRecord::string` / `LangTagRecord::lang_tag`: a slice handed out lies inside the storage data and has the
+record's length; `start + length` cannot overflow for `u16` fields -/
+theorem nameSlice_spec (dataLen off len : Nat) :
+    (∀ a b, nameSlice dataLen off len = .ok a b → a ≤ b ∧ b ≤ dataLen ∧ b - a = len) ∧
+    (off < 65536 → len < 65536 → nameSlice dataLen off len ≠ .trap) := by
+  have hs : (if off = 0 then 0 else off) = off := by split <;> omega
+  unfold nameSlice
+  simp only [hs]
+  constructor
+  · intro a b h
+    split at h
+    · simp at h
+    · split at h
+      · simp at h; omega
+      · simp at h
+  · intro h1 h2
+    have : MAXU = 18446744073709551615 := rfl
+    split
+    · omega
+    · split <;> simp
+
+
+
+/-- `Name::string_data` never hands out more than the table -/
+theorem stringData_le (d : List Nat) (off : Nat) :
+    stringDataLen d off ≤ d.length ∧ (off ≤ d.length → stringDataLen d off = d.length - off) := by
+  unfold stringDataLen splitOff
+  split <;> simp <;> omega
+
+/-! ## post: `PString::read`, `Post::{num_names, glyph_name}` -/
+
+/-- `PString::read`: the string lies inside the data behind its length byte and is ASCII; for byte data neither
+`len as usize + 1` nor `from_utf8(..).unwrap()` can panic -/
+theorem pstring_spec (d : List Nat) :
+    (∀ s, pstringRead d = .ok s → s.length + 1 ≤ d.length ∧ s = (d.drop 1).take s.length ∧ ∀ b ∈ s, b < 128) ∧
+    ((∀ b ∈ d, b < 256) → pstringRead d ≠ .trap) := by
+  unfold pstringRead
+  cases hr : readAt d 0 1 with
+  | none => simp
+  | some len =>
+    simp only []
+    have h0 := readAt_byte d len hr
+    constructor
+    · intro s h
+      split at h
+      · simp at h
+      · split at h
+        · rename_i hle
+          split at h
+          · rename_i hall
+            split at h
+            · injection h with h; subst h
+              have hl : ((d.drop 1).take len).length = len := by simp; omega
+              refine ⟨by rw [hl]; omega, by rw [hl], ?_⟩
+              intro b hb
+              simp only [List.all_eq_true, decide_eq_true_eq] at hall
+              exact hall b hb
+            · simp at h
+          · simp at h
+        · simp at h
+    · intro hb
+      have hlen : len < 256 := hb len (List.mem_of_getElem? h0)
+      have : MAXU = 18446744073709551615 := rfl
+      split
+      · omega
+      · split
+        · split
+          · rename_i hall
+            rw [validUtf8_ascii _ hall]; simp
+          · simp
+        · simp
+
+
+
+/-- after a successful `Post::read` of a version 2.0 table `num_glyphs()` is `Some`: `num_names` cannot panic -/
+theorem numNames_no_trap (d : List Nat) (t : PostT) (h : postRead d = some t) : numNames t ≠ .trap := by
+  unfold numNames
+  split
+  · simp
+  · split
+    · rename_i hv
+      have := (postRead_v2 d t h (by rw [hv])).1
+      cases hn : t.numGlyphs with
+      | none => simp [hn] at this
+      | some n => simp
+    · simp
+
+
+theorem pstringGet_no_trap (sd : List Nat) (idx : Nat) (hb : ∀ b ∈ sd, b < 256) : pstringGet sd idx ≠ some .trap := by
+  unfold pstringGet
+  split
+  · simp
+  · rename_i pos _
+    split
+    · have := (pstring_spec (sd.drop pos)).2 (fun b hbm => hb b (List.mem_of_mem_drop hbm))
+      simpa using this
+    · simp
+
+
+/-- `Post::glyph_name`: `string_data().unwrap()` cannot panic after a successful read, a standard-name index is below
+258 (`DEFAULT_GLYPH_NAMES.get(idx)` is `Some`), a custom name is ASCII -/
+theorem glyphName_spec (d : List Nat) (t : PostT) (h : postRead d = some t) (gid : Nat) :
+    ((∀ b ∈ d, b < 256) → glyphName t gid ≠ .trap) ∧ (∀ i, glyphName t gid = .std i → i < 258) ∧
+    (∀ s, glyphName t gid = .str s → ∀ b ∈ s, b < 128) := by
+  unfold glyphName
+  split
+  · split <;> simp; omega
+  · split
+    · rename_i hv
+      obtain ⟨_, _, k, hk⟩ := postRead_v2 d t h (by rw [hv])
+      split
+      · simp
+      · split
+        · simp
+        · split
+          · simp; omega
+          · rw [hk]
+            simp only []
+            cases hg : pstringGet (d.drop k) _ with
+            | none => simp
+            | some r =>
+              cases r with
+              | ok s =>
+                simp only []
+                refine ⟨by simp, by simp, ?_⟩
+                intro s' hs'; injection hs' with hs'; subst hs'
+                unfold pstringGet at hg
+                split at hg
+                · simp at hg
+                · split at hg
+                  · injection hg with hg
+                    exact ((pstring_spec _).1 s hg).2.2
+                  · simp at hg
+              | oob => simp
+              | malformed => simp
+              | trap =>
+                refine ⟨?_, by simp, by simp⟩
+                intro hb
+                exact absurd hg (pstringGet_no_trap _ _ (fun b hbm => hb b (List.mem_of_mem_drop hbm)))
+    · simp
+
+
+/-! ## non-vacuity -/
+
+example : C14Wf [⟨0xFE00, some [(0x30, 2), (0xFFFFFF, 255)], some [(0x50, 7)]⟩, ⟨0xFE01, none, none⟩] := by
+  intro rec hrec ranges hr r hm
+  simp at hrec
+  rcases hrec with rfl | rfl
+  · simp at hr; subst hr; simp at hm; rcases hm with rfl | rfl <;> simp
+  · simp at hr
+example : (c14Trace [⟨0xFE00, some [(0x30, 1)], some [(0x50, 7)]⟩, ⟨0xFE01, none, some []⟩]).map items =
+    some [(0x30, 0xFE00, .useDefault), (0x31, 0xFE00, .useDefault), (0x50, 0xFE00, .variant 7)] := by decide
+example : (duTrace [(0xFFFFFF, 255)]).map (fun e => (items e).length) = some 256 := by decide +kernel
+example : map4 { endCode := [20, 65535], startCode := [10, 65535], idDelta := [5, 1], idRangeOffset := [0, 0],
+                 glyphIdArray := [] } 4 15 = .gid 20 := by decide
+example : map12 [⟨10, 20, 5⟩, ⟨30, 40, 7⟩] 35 = .gid 12 := by decide
+example : (charTrace .utf16be [0xD8, 0x00, 0xDC, 0x00, 0xD8, 0x00, 0x00]).map items = some [0x10000, 0xFFFD] := by decide
+example : (charTrace .macRoman [0x41, 0xFF]).map items = some [0x41, 711] := by decide
+example : macEncodeT 8364 = some (some 219) := by decide +kernel
+example : pstringRead [2, 104, 105, 7] = .ok [104, 105] := by decide
+example : nameSlice 10 4 6 = .ok 4 10 ∧ nameSlice 10 4 7 = .oob := by decide
 
 end FontVerif.C01HandText
